@@ -1,7 +1,7 @@
-import SafeC.Proofs.CopyAll
+import SafeC.Proofs.CatAll
 import SafeC.Props.C06
 /-!
-# C06 — `strcpy_s strncpy_s wcscpy_s wcsncpy_s`: the complete case split for EVERY placement of the source
+# C06 — `strcpy_s strncpy_s strcat_s strncat_s` and the wide twins: the complete case split for EVERY placement of the source
 
 Setting of `Props/C06Ext2.lean`: every cell mapped and readable with ARBITRARY contents, the `dmax` cells of dest
 writable, usable sizes (`dest ≠ 0`, `0 < dmax ≤ RSIZE_MAX_(W)STR`, a known object size not smaller than `dmax`, a
@@ -19,7 +19,9 @@ a shortened or corrupted result reported as success.
 For the bounded copies with `slen = m` the `(m+1)`-th source cell is not read, but the code treats it as if it were
 (`src + m = dest` is rejected: `bounded-copy-src-ends-at-dest`, stated as `_partial` / `_witness` in `C07Copy.lean`).
 `*_C06_same`: `strcpy_s(d, dmax, d)` as the code defines it (`same-pointer-shortcut`); `*_C06_slen0`: `slen = 0` as
-the code defines it (`strncpy-slen0-shortcut`).
+the code defines it (`strncpy-slen0-shortcut`).  The concatenations (`CatC06`, second half of the file): the same on top
+of the scan for the end of dest — EOK exactly when old length + `m` + 1 ≤ `dmax` and nothing meets, result = old dest
+string ++ first `m` source characters ++ NUL.
 -/
 namespace SafeC.Props.C06
 open SafeC Gen
@@ -202,6 +204,153 @@ dest → ESOVRLP; the same string copied to a dest that ends before it → EOK; 
 example : cpyRet (exec (strcpy_s {} 100 5 102 none) cpyExSt) = some ESOVRLP ∧
     cpyRet (exec (strcpy_s {} 100 2 103 none) cpyExSt) = some EOK ∧
     cpyRet (exec (strcpy_s {} 100 1 102 none) cpyExSt) = some ESNOSPC := by
+  decide
+
+/-! ## the concatenations
+
+dest holds a string of length `dl < dmax` (arbitrary contents behind it), the source `m` characters to append at ANY
+address.  Cells read: `dest[0..dl]` (the scan) and `src[0..m]`; cells written: `dest[dl..dl+m]`. -/
+
+/-- the conclusion shared by the four concatenations (`dl` = old length of dest, `m` characters appended) -/
+def CatC06 (cfg : Cfg) (dest dmax dl src m : Nat) (st st' : St) (code : Nat) : Prop :=
+  (code = EOK ↔ dl + m + 1 ≤ dmax ∧ (dest + dl + m < src ∨ src + m < dest)) ∧
+  (code = ESNOSPC ↔ dmax ≤ dl + m ∧ (dest + dmax ≤ src ∨ src + dmax ≤ dest + dl)) ∧
+  (code = EOK ∨ code = ESOVRLP ∨ code = ESNOSPC) ∧
+  (code = EOK → cells st' dest dl = cells st dest dl ∧ cells st' (dest + dl) m = cells st src m ∧
+    st'.data (dest + dl + m) = 0 ∧
+    (cfg.slack = true → ∀ i, dl + m ≤ i → i < dmax → st'.data (dest + i) = 0) ∧
+    st'.events = st.events ∧ st'.strays = st.strays ∧
+    (∀ a, ¬ (dest ≤ a ∧ a < dest + dmax) → st'.data a = st.data a)) ∧
+  (code ≠ EOK → st'.data dest = 0 ∧ (cfg.slack = true → ∀ i, i < dmax → st'.data (dest + i) = 0) ∧
+    st'.events = st.events ++ [.handler .str code] ∧ st'.strays = st.strays ∧
+    (∀ a, ¬ (dest ≤ a ∧ a < dest + dmax) → st'.data a = st.data a))
+
+private theorem catC06_of_all {cfg : Cfg} {dest dmax dl src m : Nat} {st st' : St} {code : Nat}
+    (hdl : dl < dmax) (h : CatAll cfg dest dmax dl src m st st' code) : CatC06 cfg dest dmax dl src m st st' code := by
+  by_cases hA : (dest < src ∧ src ≤ dest + dl) ∨ (dest + dl < src ∧ src ≤ dest + dl + m ∧ src < dest + dmax) ∨
+      (src ≤ dest ∧ dest ≤ src + m ∧ dest + dl < src + dmax)
+  · obtain ⟨hr, hp⟩ := h.hit hA
+    subst hr
+    refine ⟨⟨fun hc => absurd hc (by decide), fun hc => by omega⟩,
+      ⟨fun hc => absurd hc (by decide), fun hc => by omega⟩, Or.inr (Or.inl rfl),
+      fun hc => absurd hc (by decide), fun _ => ?_⟩
+    exact ⟨hp.2.2.1, hp.2.2.2.1, hp.2.1, hp.1, hp.2.2.2.2⟩
+  by_cases hB : dl + m < dmax
+  · have hfree : dest + dl + m < src ∨ src + m < dest := by omega
+    obtain ⟨hr, hp⟩ := h.done hB hfree
+    subst hr
+    refine ⟨⟨fun _ => ⟨by omega, hfree⟩, fun _ => rfl⟩,
+      ⟨fun hc => absurd hc (by decide), fun hc => by omega⟩, Or.inl rfl, fun _ => ?_, fun hc => absurd rfl hc⟩
+    obtain ⟨hm, c1, c2, c3, c4⟩ := hp
+    refine ⟨cells_eq st st' dest dest dl (fun i hi => c4 (dest + i) (by omega)),
+      cells_eq st st' (dest + dl) src m c1, c2, ?_, hm.events, hm.strays, fun a ha => c4 a (by omega)⟩
+    intro hcs i h1 h2
+    have := c3 hcs (i - dl) (by omega) (by omega)
+    have e : dest + dl + (i - dl) = dest + i := by omega
+    rwa [e] at this
+  · have hfree : dest + dmax ≤ src ∨ src + dmax ≤ dest + dl := by omega
+    obtain ⟨hr, hp⟩ := h.full (by omega) hfree
+    subst hr
+    refine ⟨⟨fun hc => absurd hc (by decide), fun hc => by omega⟩,
+      ⟨fun _ => ⟨by omega, hfree⟩, fun _ => rfl⟩, Or.inr (Or.inr rfl),
+      fun hc => absurd hc (by decide), fun _ => ?_⟩
+    exact ⟨hp.2.2.1, hp.2.2.2.1, hp.2.1, hp.1, hp.2.2.2.2⟩
+
+/-- **strcat_s, every placement of a source string of length `n`** (identical pointers included): EOK exactly when
+`dl + n + 1 ≤ dmax` and the cells appended do not meet the cells read; then dest = old dest string ++ source string
+++ NUL, null-slack zeros behind; ESNOSPC exactly when the result does not fit and the `dmax - dl` cells copied do not
+meet; ESOVRLP otherwise; every failure clears dest -/
+theorem strcat_s_C06_all (cfg : Cfg) (dest dmax src dl n : Nat) (destbos : Bos) (st : St)
+    (hall : ∀ a, st.mapped a = true ∧ st.rd a = true)
+    (hd : dest ≠ 0) (hs : src ≠ 0) (hpos : 0 < dmax) (hle : dmax ≤ RSIZE_MAX_STR)
+    (hb : ∀ b, destbos = some b → dmax ≤ b)
+    (hrw : RW st dest dmax)
+    (hdl : dl < dmax) (hdnz : ∀ j, j < dl → st.data (dest + j) ≠ 0) (hdnul : st.data (dest + dl) = 0)
+    (hnz : ∀ j, j < n → st.data (src + j) ≠ 0) (hnul : st.data (src + n) = 0) :
+    ∃ code st', exec (strcat_s cfg dest dmax src destbos) st = .ok (code, st') ∧
+      CatC06 cfg dest dmax dl src n st st' code := by
+  unfold strcat_s
+  rw [strcatG_eq_body _ cfg dest dmax src destbos hd hs hpos hle hb]
+  obtain ⟨code, st', he, hp⟩ := catBody_cases cfg false dest dmax src dl n 0 st hall hpos hrw hdl hdnz hdnul hnz
+    (Or.inl ⟨fun h => absurd h (by decide), hnul⟩)
+  exact ⟨code, st', he, catC06_of_all hdl hp⟩
+
+theorem wcscat_s_C06_all (cfg : Cfg) (dest dmax src dl n : Nat) (destbos : Bos) (st : St)
+    (hall : ∀ a, st.mapped a = true ∧ st.rd a = true)
+    (hd : dest ≠ 0) (hs : src ≠ 0) (hpos : 0 < dmax) (hle : dmax ≤ RSIZE_MAX_WSTR)
+    (hb : ∀ b, destbos = some b → dmax * SIZEOF_WCHAR_T ≤ b)
+    (hrw : RW st dest dmax)
+    (hdl : dl < dmax) (hdnz : ∀ j, j < dl → st.data (dest + j) ≠ 0) (hdnul : st.data (dest + dl) = 0)
+    (hnz : ∀ j, j < n → st.data (src + j) ≠ 0) (hnul : st.data (src + n) = 0) :
+    ∃ code st', exec (wcscat_s cfg dest dmax src destbos) st = .ok (code, st') ∧
+      CatC06 cfg dest dmax dl src n st st' code := by
+  rw [wcscat_s_eq_body cfg dest dmax src destbos hd hs hpos hle hb]
+  obtain ⟨code, st', he, hp⟩ := catBody_cases cfg false dest dmax src dl n 0 st hall hpos hrw hdl hdnz hdnul hnz
+    (Or.inl ⟨fun h => absurd h (by decide), hnul⟩)
+  exact ⟨code, st', he, catC06_of_all hdl hp⟩
+
+/-- **strncat_s, every placement**, `0 < slen`, `m = min(slen, strlen src)` characters appended: EOK exactly when
+`dl + m + 1 ≤ dmax` and the cells appended do not meet the cells read (the `(m+1)`-th source cell counted also when
+`slen = m` runs out); then dest = old dest string ++ first `m` source characters ++ NUL -/
+theorem strncat_s_C06_all (cfg : Cfg) (dest dmax src slen dl m : Nat) (destbos srcbos : Bos) (st : St)
+    (hall : ∀ a, st.mapped a = true ∧ st.rd a = true)
+    (hd : dest ≠ 0) (hs : src ≠ 0) (hpos : 0 < dmax) (hle : dmax ≤ RSIZE_MAX_STR)
+    (hslen : 0 < slen) (hslenle : slen ≤ RSIZE_MAX_STR)
+    (hb : ∀ b, destbos = some b → dmax ≤ b) (hsb : ∀ sb, srcbos = some sb → slen ≤ sb)
+    (hrw : RW st dest dmax)
+    (hdl : dl < dmax) (hdnz : ∀ j, j < dl → st.data (dest + j) ≠ 0) (hdnul : st.data (dest + dl) = 0)
+    (hnz : ∀ j, j < m → st.data (src + j) ≠ 0)
+    (hfin : (m < slen ∧ st.data (src + m) = 0) ∨ slen = m) :
+    ∃ code st', exec (strncat_s cfg dest dmax src slen destbos srcbos) st = .ok (code, st') ∧
+      CatC06 cfg dest dmax dl src m st st' code := by
+  unfold strncat_s
+  rw [strncatG_eq_body _ cfg dest dmax src slen destbos srcbos hd hs hpos hle hslen hslenle hb hsb]
+  obtain ⟨code, st', he, hp⟩ := catBody_cases cfg true dest dmax src dl m slen st hall hpos hrw hdl hdnz hdnul hnz
+    (hfin.elim (fun h => Or.inl ⟨fun _ => h.1, h.2⟩) (fun h => Or.inr ⟨rfl, h⟩))
+  exact ⟨code, st', he, catC06_of_all hdl hp⟩
+
+theorem wcsncat_s_C06_all (cfg : Cfg) (dest dmax src slen dl m : Nat) (destbos srcbos : Bos) (st : St)
+    (hall : ∀ a, st.mapped a = true ∧ st.rd a = true)
+    (hd : dest ≠ 0) (hs : src ≠ 0) (hpos : 0 < dmax) (hle : dmax ≤ RSIZE_MAX_WSTR)
+    (hslen : 0 < slen) (hslenle : slen ≤ RSIZE_MAX_WSTR)
+    (hb : ∀ b, destbos = some b → dmax * SIZEOF_WCHAR_T ≤ b)
+    (hsb : ∀ sb, srcbos = some sb → slen * SIZEOF_WCHAR_T ≤ sb)
+    (hrw : RW st dest dmax)
+    (hdl : dl < dmax) (hdnz : ∀ j, j < dl → st.data (dest + j) ≠ 0) (hdnul : st.data (dest + dl) = 0)
+    (hnz : ∀ j, j < m → st.data (src + j) ≠ 0)
+    (hfin : (m < slen ∧ st.data (src + m) = 0) ∨ slen = m) :
+    ∃ code st', exec (wcsncat_s cfg dest dmax src slen destbos srcbos) st = .ok (code, st') ∧
+      CatC06 cfg dest dmax dl src m st st' code := by
+  rw [wcsncat_s_eq_body cfg dest dmax src slen destbos srcbos hd hs hpos hle hslen hslenle hb hsb]
+  obtain ⟨code, st', he, hp⟩ := catBody_cases cfg true dest dmax src dl m slen st hall hpos hrw hdl hdnz hdnul hnz
+    (hfin.elim (fun h => Or.inl ⟨fun _ => h.1, h.2⟩) (fun h => Or.inr ⟨rfl, h⟩))
+  exact ⟨code, st', he, catC06_of_all hdl hp⟩
+
+/-- dest = "xy" in 6 writable cells at 100, src = "ab" at 104 INSIDE the room behind the dest string -/
+def catExSt : St :=
+  { data := fun a => if a = 100 then 120 else if a = 101 then 121 else if a = 104 then 97 else if a = 105 then 98 else 0
+    mapped := fun _ => true, rd := fun _ => true
+    wr := fun a => decide (100 ≤ a ∧ a < 106) }
+
+/-- non-vacuity of the concatenation theorems: `catExSt`, `dl = 2`, `n = 2` (for the bounded ones `slen = 1`, `m = 1`) -/
+example : (∀ a, catExSt.mapped a = true ∧ catExSt.rd a = true) ∧ RW catExSt 100 6 ∧
+    (∀ j, j < 2 → catExSt.data (100 + j) ≠ 0) ∧ catExSt.data (100 + 2) = 0 ∧
+    (∀ j, j < 2 → catExSt.data (104 + j) ≠ 0) ∧ catExSt.data (104 + 2) = 0 ∧
+    (((1 : Nat) < 1 ∧ catExSt.data (104 + 1) = 0) ∨ (1 : Nat) = 1) := by
+  refine ⟨fun _ => ⟨rfl, rfl⟩, fun i hi => ⟨rfl, ?_, rfl⟩, ?_, by decide, ?_, by decide, Or.inr rfl⟩
+  · simp [catExSt]; omega
+  · intro j hj
+    have : j = 0 ∨ j = 1 := by omega
+    rcases this with h | h <;> subst h <;> decide
+  · intro j hj
+    have : j = 0 ∨ j = 1 := by omega
+    rcases this with h | h <;> subst h <;> decide
+
+/-- test instances on `catExSt` (kernel-evaluated): "xy" ++ "ab" with the source two cells behind the terminator —
+the third cell appended (the terminator) would be `src[0]`: ESOVRLP; `strncat_s(…, 1)` appends "a" and its NUL below
+src: EOK -/
+example : cpyRet (exec (strcat_s {} 100 6 104 none) catExSt) = some ESOVRLP ∧
+    cpyRet (exec (strncat_s {} 100 6 104 1 none none) catExSt) = some EOK := by
   decide
 
 end SafeC.Props.C06
